@@ -290,6 +290,49 @@ func c19ClientIP(p *Prog, r *Report, fn *ssa.Function) {
 		r.Check(verdict == "ok", "C19.R1", what+": token provenance", p.InstrPos(ret), "token = host result of an allow-listed host:port parser applied to req.RemoteAddr, on the parser's success edge", msg)
 	}
 	r.Check(nSucc > 0, "C19.R1", what+": has a success path", p.FuncPos(fn), "ok", "no successful return")
+	// every address the parser accepts (with a non-empty host) IS a source: the routine fails only on the parser's
+	// error edge or the empty-host edge — a further refusal ("no blanks", "must parse as IP") turns legal peers
+	// (IPv6 zones may be interface names with spaces) into errors, i.e. into 500s of the limiters
+	{
+		var allowed []Edge
+		for _, c := range Calls(fn) {
+			call, ok := c.(*ssa.Call)
+			if !ok {
+				continue
+			}
+			o := calleeObj(call.Common())
+			if o == nil || o.Pkg() == nil || !hostPortParsers[o.Pkg().Path()+"."+objName(o)] {
+				continue
+			}
+			for _, t := range NilTests(fn, resultValue(call, errorResultIndex(call.Common().Signature()))) {
+				allowed = append(allowed, t.NonNil)
+			}
+			for _, ifi := range ifs(fn) {
+				cnd, pos := condStrip(ifi.Cond)
+				bo, ok := cnd.(*ssa.BinOp)
+				if !ok || (bo.Op != token.EQL && bo.Op != token.NEQ) {
+					continue
+				}
+				if sv, ok := constString(bo.Y); !ok || sv != "" || !resultValue(call, 0)(bo.X) {
+					continue
+				}
+				k := 0
+				if (bo.Op == token.EQL) != pos {
+					k = 1
+				}
+				allowed = append(allowed, Edge{ifi.Block(), k})
+			}
+		}
+		for _, ret := range Returns(fn) {
+			isNil, known := returnErrIsNil(ret, 2)
+			if !known || isNil {
+				continue
+			}
+			r.Paths++
+			r.Check(len(allowed) > 0 && !ReachableWithoutEdges(fn, ret, allowed), "C19.R1", what+": refuses only what the parser refuses (or an empty host)", p.InstrPos(ret), "the failing return is unreachable once the parser-error and empty-host edges are deleted",
+				"the extractor can fail for an address that net.SplitHostPort accepts with a non-empty host (an extra condition on the host): such peers are answered with an error instead of being limited as a source of their own")
+		}
+	}
 	c19Amount(p, r, fn, what)
 }
 
@@ -405,6 +448,7 @@ func c19Header(p *Prog, r *Report, fn *ssa.Function, mc *ssa.MakeClosure, ret *s
 func mutantsC19() []Mutant {
 	f := "utils/source.go"
 	return []Mutant{
+		{Name: "client-ip-extra-refusal", File: "utils/source.go", Old: "\tif err != nil || host == \"\" {\n", New: "\tif err != nil || host == \"\" || strings.ContainsAny(host, \" \\t\") {\n", Expect: "C19.R1"},
 		{Name: "first-colon-split", File: f, Old: "\thost, _, err := net.SplitHostPort(req.RemoteAddr)\n\tif err != nil || host == \"\" {", New: "\thost, _, _ := strings.Cut(req.RemoteAddr, \":\")\n\tvar err error\n\t_ = net.SplitHostPort\n\tif err != nil || host == \"\" {", Expect: "C19.R1"},
 		{Name: "amount-zero", File: f, Old: "\treturn host, 1, nil", New: "\treturn host, 0, nil", Expect: "C19.R3"},
 		{Name: "fallthrough-returns-extractor", File: f, Old: "\treturn nil, fmt.Errorf(\"unsupported limiting variable: '%s'\", variable)", New: "\treturn ExtractorFunc(extractHost), nil", Expect: "C19.R2"},
